@@ -26,16 +26,18 @@
 (* observations) it stops with skip # "" and the run is counted, not judged.   *)
 EXTENDS Integers, Sequences, FiniteSets, TLC
 
-CONSTANT Deviations     \* names of modelled texlang behaviours that differ from TeX (see Let, below)
+CONSTANT Deviations     \* reserved for named deviations (none at present: where texlang knowingly differs from
+                        \* TeX outside the listed properties the model stops with a skip instead of taking sides)
 
 PrimNames == << "def", "gdef", "global", "let", "count", "countdef", "chardef", "advance",
                 "multiply", "divide", "the", "relax", "expandafter", "noexpand", "iftrue",
                 "iffalse", "ifnum", "ifodd", "ifcase", "or", "else", "fi", "globaldefs",
-                "long", "outer" >>
+                "long", "outer", "toks", "toksdef" >>
 NPrim  == Len(PrimNames)
 NNames == NPrim + 10         \* eight user control sequences and two active characters follow the primitives
                              \* (an active character is a name like any other: TeX 222 eqtb layout)
 NReg   == 4                  \* \count0 .. \count3
+NTok   == 2                  \* \toks0, \toks1
 Big    == 100000000          \* values beyond this leave the model (skip)
 
 PrimId(n) == CHOOSE i \in 1..NPrim : PrimNames[i] = n
@@ -43,6 +45,7 @@ P_def == 1  P_gdef == 2  P_global == 3  P_let == 4  P_count == 5  P_countdef == 
 P_advance == 8  P_multiply == 9  P_divide == 10  P_the == 11  P_relax == 12  P_expandafter == 13
 P_noexpand == 14  P_iftrue == 15  P_iffalse == 16  P_ifnum == 17  P_ifodd == 18  P_ifcase == 19
 P_or == 20  P_else == 21  P_fi == 22  P_globaldefs == 23  P_long == 24  P_outer == 25
+P_toks == 26  P_toksdef == 27
 
 \* ---------------------------------------------------------------------------------------------
 \* tokens and meanings (uniform records: TLC cannot compare records of different shape)
@@ -55,6 +58,7 @@ Prim(i)   == [m |-> "prim", a |-> i, b |-> 0]
 Macro(i)  == [m |-> "macro", a |-> i, b |-> 0]          \* index into the macro table
 CDef(r)   == [m |-> "cdef", a |-> r, b |-> 0]           \* \countdef alias of \count r
 ChDef(c)  == [m |-> "chdef", a |-> c, b |-> 0]          \* \chardef constant
+TDef(r)   == [m |-> "tdef", a |-> r, b |-> 0]           \* \toksdef alias of \toks r
 KindNo(k) == CASE k = "ch" -> 1 [] k = "sp" -> 2 [] k = "lb" -> 3 [] k = "rb" -> 4 [] k = "ha" -> 5 [] OTHER -> 6
 KindOf(n) == CASE n = 1 -> "ch" [] n = 2 -> "sp" [] n = 3 -> "lb" [] n = 4 -> "rb" [] n = 5 -> "ha" [] OTHER -> "pm"
 TokAlias(t) == [m |-> "tok", a |-> KindNo(t.k), b |-> t.v]   \* \let\a=<character token>
@@ -67,7 +71,8 @@ InitState(prog, fuel) ==
     mean  |-> InitMean,                      \* current meaning of every name
     cnt   |-> [r \in 0..(NReg - 1) |-> 0],   \* count registers
     gd    |-> 0,                             \* \globaldefs
-    saves |-> << >>,                         \* one [mean, cnt, gd] per open group
+    tks   |-> [r \in 0..(NTok - 1) |-> << >>], \* token list registers
+    saves |-> << >>,                         \* one [mean, cnt, gd, tks] per open group
     conds |-> << >>,                         \* open conditionals: [c |-> "if"|"case", br |-> "then"|"else"]
     mac   |-> << >>,                         \* macro table, append only: [par, body]
     out   |-> << >>,                         \* delivered: character codes; -(name) for an unexpanded expandable
@@ -76,7 +81,11 @@ InitState(prog, fuel) ==
 Stopped(S) == S.err # "" \/ S.skip # ""
 Fail(S, why) == IF Stopped(S) THEN S ELSE [S EXCEPT !.err = why]
 Skip(S, why) == IF Stopped(S) THEN S ELSE [S EXCEPT !.skip = why]
-Tick(S) == IF S.fuel <= 0 THEN Skip(S, "skip-fuel") ELSE [S EXCEPT !.fuel = @ - 1]
+\* every expansion and every executed token costs one unit of fuel; a pending input that has grown beyond
+\* all programs of interest (a token list that delivers itself twice doubles it at every step) also ends the run
+Tick(S) == IF S.fuel <= 0 THEN Skip(S, "skip-fuel")
+           ELSE IF Len(S.inp) > 800 THEN Skip(S, "skip-input-explosion")
+           ELSE [S EXCEPT !.fuel = @ - 1]
 
 MeanOf(S, t) == IF t.k = "cs" THEN S.mean[t.v] ELSE TokAlias(t)
 IsPrimTok(S, t, p) == t.k = "cs" /\ S.mean[t.v] = Prim(p)
@@ -223,7 +232,7 @@ EndBranch(S, p) ==
 
 \* ---------------------------------------------------------------------------------------------
 \* expansion and the scanners (mutually recursive, as in TeX)
-RECURSIVE GetX(_), ExpandOnce(_, _), ScanInt(_), ScanDigits(_, _, _), ScanSigns(_, _), InternalInt(_, _)
+RECURSIVE GetX(_), ExpandOnce(_, _), ScanInt(_), ScanDigits(_, _, _), ScanSigns(_, _), InternalInt(_, _), TokVar(_, _)
 
 Digits(n) == LET RECURSIVE D(_) D(k) == IF k < 10 THEN << Tok("ch", 48 + k) >> ELSE D(k \div 10) \o << Tok("ch", 48 + (k % 10)) >>
              IN IF n < 0 THEN << Tok("ch", 45) >> \o D(-n) ELSE D(n)
@@ -240,6 +249,15 @@ InternalInt(S, t) ==
   ELSE IF mn.m = "chdef" THEN [ok |-> TRUE, s |-> S, v |-> mn.a]
   ELSE IF mn = Prim(P_globaldefs) THEN [ok |-> TRUE, s |-> S, v |-> S.gd]
   ELSE [ok |-> FALSE, s |-> S, v |-> 0]
+
+\* a token list variable named by token t (consumed; caller checked the meaning): [s, var]
+TokVar(S, t) ==
+  LET mn == MeanOf(S, t) IN
+  IF mn.m = "tdef" THEN [s |-> S, var |-> mn.a]
+  ELSE LET r == ScanInt(S) IN
+       IF Stopped(r.s) THEN [s |-> r.s, var |-> 0]
+       ELSE IF r.v \notin 0..(NTok - 1) THEN [s |-> Skip(r.s, "skip-register-outside-model"), var |-> 0]
+       ELSE [s |-> r.s, var |-> r.v]
 
 \* expand the expandable token t, which was just consumed
 ExpandOnce(S0, t) ==
@@ -259,6 +277,9 @@ ExpandOnce(S0, t) ==
   ELSE IF mn.a = P_the
   THEN LET x == GetX(S) IN
        IF x.none THEN Fail(x.s, "eof after the")
+       ELSE IF ~Stopped(x.s) /\ (MeanOf(x.s, x.t) = Prim(P_toks) \/ MeanOf(x.s, x.t).m = "tdef")
+       THEN \* TeX 465: the tokens of the list itself (they are read again, and expanded, afterwards)
+            LET tv == TokVar(x.s, x.t) IN IF Stopped(tv.s) THEN tv.s ELSE BackSeq(tv.s, tv.s.tks[tv.var])
        ELSE LET v == InternalInt(x.s, x.t) IN
             IF ~v.ok THEN (IF Stopped(x.s) THEN x.s ELSE Fail(x.s, "the: not an internal quantity"))
             ELSE IF Stopped(v.s) THEN v.s ELSE BackSeq(v.s, Digits(v.v))
@@ -371,6 +392,31 @@ SetGd(S, v, glob) ==
   ELSE IF glob THEN [S EXCEPT !.gd = v, !.saves = [i \in 1..Len(S.saves) |-> [S.saves[i] EXCEPT !.gd = v]]]
   ELSE [S EXCEPT !.gd = v]
 
+SetTks(S, r, v, glob) ==
+  IF glob THEN [S EXCEPT !.tks[r] = v, !.saves = [i \in 1..Len(S.saves) |-> [S.saves[i] EXCEPT !.tks[r] = v]]]
+  ELSE [S EXCEPT !.tks[r] = v]
+
+\* <token list variable> [=] { balanced text }  or  [=] <token list variable>   (TeX 1226-1227).
+\* TeX passes over blanks and \relax in front of the brace; texlang takes the next expanded token as it
+\* is, so a blank or \relax there is outside the model.
+AssignToks(S, t, glob) ==
+  LET tv == TokVar(S, t) IN
+  IF Stopped(tv.s) THEN tv.s
+  ELSE LET e == OptEquals(tv.s) IN
+       IF Stopped(e) THEN e
+       ELSE LET x == GetX(e) IN
+            IF x.none THEN (IF Stopped(x.s) THEN x.s ELSE Fail(x.s, "toks: eof"))
+            ELSE IF x.t.k = "sp" \/ MeanOf(x.s, x.t) = Prim(P_relax) THEN Skip(x.s, "skip-blank-before-toks-brace")
+            ELSE IF x.t.k = "lb"
+                 THEN LET j == MatchRb(x.s.inp, 1, 0) IN
+                      IF j = 0 THEN Fail(x.s, "toks: eof in text")
+                      ELSE SetTks([x.s EXCEPT !.inp = SubSeq(@, j + 1, Len(@))], tv.var, SubSeq(x.s.inp, 1, j - 1),
+                                  IsGlobal(x.s, glob))
+            ELSE IF MeanOf(x.s, x.t) = Prim(P_toks) \/ MeanOf(x.s, x.t).m = "tdef"
+                 THEN LET src == TokVar(x.s, x.t) IN
+                      IF Stopped(src.s) THEN src.s ELSE SetTks(src.s, tv.var, src.s.tks[src.var], IsGlobal(src.s, glob))
+            ELSE Fail(x.s, "toks: neither a brace nor a token list variable")
+
 \* an integer variable named by token t (consumed): [ok, s, var] with var = 0..NReg-1 or -1 for \globaldefs
 IntVar(S, t) ==
   LET mn == MeanOf(S, t) IN
@@ -413,8 +459,13 @@ Arith(S, p, glob) ==
                            SetVar(r.s, iv.var, IF (cur < 0) # (r.v < 0) THEN -q ELSE q, g)
 
 \* target of a definition: the next token, unexpanded, must be a control sequence
-Target(S) == LET g == GetTok(S) IN
-             IF g.none THEN [ok |-> FALSE, s |-> Fail(g.s, "target: eof"), n |-> 0]
+\* (TeX 1215 get_r_token skips every space in front of it; texlang skips one: two or more are left to neither)
+Target(S0) ==
+  LET lead == SkipSpaces(S0.inp, 1) - 1
+      S == [S0 EXCEPT !.inp = SubSeq(@, lead + 1, Len(@))]
+      g == GetTok(S) IN
+             IF lead >= 2 THEN [ok |-> FALSE, s |-> Skip(S0, "skip-two-spaces-before-target"), n |-> 0]
+             ELSE IF g.none THEN [ok |-> FALSE, s |-> Fail(g.s, "target: eof"), n |-> 0]
              ELSE IF g.t.k # "cs" THEN [ok |-> FALSE, s |-> Fail(g.s, "target: not a control sequence"), n |-> 0]
              ELSE [ok |-> TRUE, s |-> g.s, n |-> g.t.v]
 
@@ -467,8 +518,10 @@ Let(S, glob) ==
                 ELSE a IN
        IF b.none THEN Fail(b.s, "let: eof")
        ELSE LET mn == MeanOf(b.s, b.t) IN
-            IF mn = Undef /\ "LetUndefinedIsNoop" \in Deviations
-            THEN b.s      \* texlang: \let\a=\undefined leaves \a as it was (TeX makes it undefined)
+            IF mn = Undef
+            THEN \* TeX makes \a undefined; texlang leaves \a as it was.  No listed property speaks about it:
+                 \* the run is outside the model whichever of the two the code does
+                 Skip(b.s, "skip-let-to-undefined")
             ELSE SetMean(b.s, tg.n, mn, IsGlobal(b.s, glob))
 
 \* \countdef / \chardef <target> [=] <int>
@@ -482,6 +535,9 @@ RegDef(S, p, glob) ==
             ELSE IF p = P_countdef
                  THEN (IF r.v \notin 0..(NReg - 1) THEN Skip(r.s, "skip-register-outside-model")
                        ELSE SetMean(r.s, tg.n, CDef(r.v), IsGlobal(r.s, glob)))
+            ELSE IF p = P_toksdef
+                 THEN (IF r.v \notin 0..(NTok - 1) THEN Skip(r.s, "skip-register-outside-model")
+                       ELSE SetMean(r.s, tg.n, TDef(r.v), IsGlobal(r.s, glob)))
                  ELSE (IF r.v \notin 0..255 THEN Skip(r.s, "skip-chardef-outside-model")
                        ELSE SetMean(r.s, tg.n, ChDef(r.v), IsGlobal(r.s, glob)))
 
@@ -504,8 +560,9 @@ Exec(S, x, pfx) ==
   THEN IF mn.a = P_gdef /\ S.gd < 0 THEN Skip(S, "skip-gdef-under-negative-globaldefs")   \* finding C01
        ELSE Def(S, IsGlobal(S, pfx \/ mn.a = P_gdef))
   ELSE IF mn = Prim(P_let) THEN Let(S, pfx)
-  ELSE IF mn.m = "prim" /\ mn.a \in {P_countdef, P_chardef}
+  ELSE IF mn.m = "prim" /\ mn.a \in {P_countdef, P_chardef, P_toksdef}
   THEN IF pfx /\ mn.a = P_chardef THEN Skip(S, "skip-global-chardef") ELSE RegDef(S, mn.a, pfx)
+  ELSE IF mn = Prim(P_toks) \/ mn.m = "tdef" THEN AssignToks(S, t, pfx)
   ELSE IF mn = Prim(P_count) \/ mn.m = "cdef" \/ mn = Prim(P_globaldefs) THEN AssignVar(S, t, pfx)
   ELSE IF mn.m = "prim" /\ mn.a \in {P_advance, P_multiply, P_divide} THEN Arith(S, mn.a, pfx)
   ELSE IF pfx THEN Fail(S, "prefix before a non-assignment")
@@ -515,13 +572,14 @@ Exec(S, x, pfx) ==
   ELSE IF mn.m = "tok"
   THEN \* a character token, or a \let alias of one (texlang puts the character back and reads it again)
        LET k == KindOf(mn.a) IN
-       IF k = "lb" THEN [S EXCEPT !.saves = Append(@, [mean |-> S.mean, cnt |-> S.cnt, gd |-> S.gd])]
+       IF k = "lb" THEN [S EXCEPT !.saves = Append(@, [mean |-> S.mean, cnt |-> S.cnt, gd |-> S.gd, tks |-> S.tks])]
        ELSE IF k = "rb"
             THEN (IF S.saves = << >> THEN Fail(S, "no group to end")
                   ELSE LET sv == S.saves[Len(S.saves)] IN
-                       [S EXCEPT !.mean = sv.mean, !.cnt = sv.cnt, !.gd = sv.gd, !.saves = SubSeq(@, 1, Len(@) - 1)])
+                       [S EXCEPT !.mean = sv.mean, !.cnt = sv.cnt, !.gd = sv.gd, !.tks = sv.tks,
+                                 !.saves = SubSeq(@, 1, Len(@) - 1)])
             ELSE IF k = "pm" THEN Fail(S, "internal: parameter token executed")
-            ELSE IF k = "ha" THEN [S EXCEPT !.out = Append(@, 35)]     \* a # that reaches the stomach is typeset
+            ELSE IF k = "ha" THEN Skip(S, "skip-hash-executed")   \* TeX: an error; texlang typesets it
             ELSE [S EXCEPT !.out = Append(@, mn.b)]
   ELSE Fail(S, "internal: unknown meaning")
 
